@@ -87,8 +87,9 @@ func round(s *slip.Scope, f slip.Object, args slip.List, depth int) slip.Values 
 		}
 		q = tn / d
 		r = tn - q.(slip.Fixnum)*d
-		dif := r.(slip.Fixnum) * 2
-		if dif == d && q.(slip.Fixnum)%2 != 0 {
+		// Round up when the remainder is more than half of the divisor, or
+		// exactly half and the quotient is odd.
+		if rest := d - r.(slip.Fixnum); rest < r.(slip.Fixnum) || (rest == r.(slip.Fixnum) && q.(slip.Fixnum)%2 != 0) {
 			q = q.(slip.Fixnum) + 1
 			r = tn - q.(slip.Fixnum)*d
 		}
